@@ -19,7 +19,7 @@ RULE = (
     'tick the ticker must have been re-activated by the loop (it yielded to the other runnable '
     'activities; FIFO order is C02). non-trivial = >= 2 ticks judged; distinct = trace'
 )
-RULE = RULE + (' Further: tickers iterated in pieces by several (or nested) simulations, negative and exact integer clocks, exact Decimal / Fraction time, negative periods the clock absorbs.')
+RULE = RULE + (' Further: tickers iterated in pieces by several (or nested) simulations, negative and exact integer clocks, exact Decimal / Fraction time, negative periods the clock absorbs, loops over one ticker object that are left and entered again.')
 
 LEVEL_TEXT = (
     'Exploration by runtime monitoring: tick times, yielded values and exceptions of the real '
@@ -59,7 +59,9 @@ def make_case(seed, index, tier):
                         # the ticker object is created some time before it is iterated
                         'early': rng.choice([None, None, None, 0, 0.375, 1, max(period, 0) + 1]),
                         # after that many ticks the iterator is handed to a child activity
-                        'handover': rng.choice([None, None, None, 1, 2])})
+                        'handover': rng.choice([None, None, None, 1, 2]),
+                        # after these numbers of ticks the loop is left and entered again
+                        'reenter': rng.choice([[], [], [1], [2], [1, 3], [1, 2, 4]])})
     for ticker in tickers:
         # what ends the enclosing until() block: a delay, a date, or a flag set by somebody else
         ticker['deadline_kind'] = rng.choice(['delay', 'delay', 'date', 'flag'])
@@ -306,7 +308,7 @@ def run_case(case):
     ends = {spec['name']: None for spec in case['tickers']}
     begins = {}
     yields = {spec['name']: [] for spec in case['tickers']}
-    stats_early = [0, 0, 0]
+    stats_early = [0, 0, 0, 0]
     for spec in [spec['sequel'] for spec in case['tickers'] if spec.get('sequel')]:
         log[spec['name']] = []
         ends[spec['name']] = None
@@ -331,6 +333,12 @@ def run_case(case):
             """run body iterations on the iterator in box[0]; True when the ticker is finished"""
             try:
                 while limit is None or state['count'] < limit:
+                    if state['count'] and state['count'] in spec.get('reenter', ()):
+                        # the loop over the ticker was left by `break` and is entered again
+                        # (`async for` asks the same object for its iterator once more): it
+                        # goes on where it was - the time in between is time of the body
+                        box[0] = box[0].__aiter__()
+                        stats_early[3] += 1
                     now = await box[0].__anext__()
                     log[name].append((time.now, now, sess.n, state['body_end_n']))
                     duration = num(spec['durations'][state['count']])
@@ -442,7 +450,8 @@ def run_case(case):
              'cut_by_deadline': 0, 'value_errors': 0, 'activations': sess.n,
              'created_before_iteration': stats_early[0],
              'handed_to_another_activity': stats_early[1],
-             'followed_by_another_ticker': stats_early[2]}
+             'followed_by_another_ticker': stats_early[2],
+             'loops_entered_again': stats_early[3]}
     if outcome[0] != 'ok':
         violations.append({'mechanism': 'c14:run-failed',
                            'msg': 'run() ended with %r' % (outcome[1],)})
